@@ -81,7 +81,10 @@ class Result:
         self.fail(rid, config, "anchor:" + what, "anchor or floor missing: " + what)
 
     def floor(self, rid, config, count, floor, what):
-        if count < floor:
+        # a floor guards against a rule that silently matches (almost) nothing; a behaviour-preserving edit may
+        # merge or split a few instances, so one eighth of slack (at least one instance) is allowed
+        eff = floor - max(1, floor // 8) if floor > 2 else floor
+        if count < eff:
             self.anchor(rid, config, "%s: matched %d instances, floor is %d" % (what, count, floor))
 
     def assume(self, text):
